@@ -8,12 +8,27 @@ package c11
 //  B  every request object of the grid jsonrpc x method x params x id (x 2 member orders), through 3 transports;
 //  C  every batch of <= 3 / <= 4 entries over a 15-entry sub-alphabet (free-running worker pool, pool sizes 1 and 4);
 //  D  the same batches with handlers parked inside a testing/synctest bubble: at every quiescent point every
-//     parked handler is tried as the next one to complete (all completion orders), pool sizes 1, 2, 3;
+//     parked handler is tried as the next one to complete (all completion orders), pool sizes 1..batch length bound;
 //  E  every <= 1 / <= 2 token edit (delete / substitute / insert over a 16-token alphabet) and every byte
 //     truncation of 4 valid request texts;
 //  F  positional == named: for every method and every admissible argument prefix both spellings must produce the
 //     same invocation and the same result.
 // Oracle: oracle_test.go (JSON-RPC 2.0 grammar + exactly-once invocation log), JSON read by json_test.go.
+//
+// Findings on the unchanged tree (each reproduced on the real code; keys are kept specific on purpose):
+//  notification-answered (single|batch) E-32601 / E-32602
+//      a notification (no "id") naming an unknown method or carrying bad params is answered with an error and
+//      "id":null (server.go handleRequest returns the error response before looking at res.ID == nil).
+//  parse-error-for-valid-json ill-typed=jsonrpc|method
+//      a single request whose jsonrpc/method member has the wrong JSON type is answered -32700 "Parse error" although
+//      the text is valid JSON (spec: -32600); the same object inside a batch gets -32600.
+//  response-grammar id-not-string-number-null echoed-from-invalid-request
+//      {"id":[]} (or {}, true) plus another defect: isSane stops at the first defect, the caller then echoes req.ID,
+//      so the response carries an array/object/bool id.
+//  response-grammar neither-result-nor-error handler-returned-nil
+//      a handler returning (nil, nil) yields {"jsonrpc":"2.0","id":1}: `result` is dropped by omitempty.
+// A free-running -race build of this same package (go test -race -c -tags verif ./props/c11; VERIF_TIER=quick) is the
+// complementary pass for unsynchronised accesses; parts C (free-running pool) give it real concurrency.
 
 import (
 	"bytes"
@@ -770,7 +785,7 @@ func TestCheck(t *testing.T) {
 		inputs = append(inputs, batchEntries[0](0), batchEntries[2](0), batchEntries[5](0))
 	outer:
 		for _, in := range inputs {
-			for _, ps := range []int{1, 2, 3} {
+			for ps := 1; ps <= maxBatch; ps++ {
 				if ps > 1 && strings.Count(in, `"method":"m`) < 2 {
 					continue // fewer than two handler invocations: the pool size cannot matter
 				}
@@ -818,7 +833,7 @@ func TestCheck(t *testing.T) {
 	r.Set("distinct_outcomes", int64(len(b.outcomes)))
 	r.Set("rule", "A: all byte strings <= max_len over "+strconv.Itoa(len(alphabet))+" symbols; B: full product jsonrpc x method x params x id x 2 member orders x 3 transports; "+
 		"C: all batches <= "+strconv.Itoa(maxBatch)+" entries over "+strconv.Itoa(len(batchEntries))+" entry kinds x pool sizes {4,1} x {HandleReader,HTTP}; "+
-		"D: same batches, every choice of the next parked handler to complete at every quiescent point (synctest), pool sizes {1,2,3}; "+
+		"D: same batches, every choice of the next parked handler to complete at every quiescent point (synctest), pool sizes 1.."+strconv.Itoa(maxBatch)+"; "+
 		"E: all <=1/<=2 token edits + all truncations of "+strconv.Itoa(len(editBases))+" request texts; F: positional vs named pairs. "+
 		"An outcome is the (shape, multiset of response classes, invoked methods) triple; distinct_nontrivial counts different triples observed.")
 	type kv struct {
